@@ -47,6 +47,32 @@ func runCCCase(c ccCase) (mis []map[string]any) {
 			add("prop", fmt.Sprint("panic: ", r))
 		}
 	}()
+	if c.Kind == "total" {
+		// C16: no identifier text makes a decoder panic, and whatever a decoder accepts no encoder panics on
+		decs := map[string]cc.DecodeCasingFunc{"goCamel": cc.DecodeGoCamelCase, "goTags": cc.DecodeGoTags}
+		for _, s := range ccSchemes {
+			decs[s.name] = s.dec
+		}
+		for dn, dec := range decs {
+			func() {
+				stage := "Decode"
+				defer func() {
+					if r := recover(); r != nil {
+						add("prop", fmt.Sprintf("%s(%q) [%s]: panic: %v", stage, c.Name, dn, r))
+					}
+				}()
+				words, err := dec(c.Name)
+				if err != nil {
+					return
+				}
+				for _, s := range ccSchemes {
+					stage = fmt.Sprintf("Encode[%s] of the words %q that Decode[%s] made", s.name, []string(words), dn)
+					_ = s.enc(append(cc.DecodedIdentifier{}, words...))
+				}
+			}()
+		}
+		return
+	}
 	if c.Kind == "words" {
 		for _, s := range ccSchemes {
 			got := s.enc(cc.DecodedIdentifier(append([]string{}, c.Words...)))
